@@ -269,7 +269,7 @@ def r_w(rnd):
 
 
 def r_len(rnd):
-    return rnd.choice([0, 0, 1, 1, 2, 2, 3, 4, 6, 9])
+    return rnd.choice([0, 0, 1, 1, 2, 2, 3, 4, 5, 6, 7, 8, 9])
 
 
 def r_name(rnd):
@@ -410,9 +410,9 @@ TRUSTED_BASE = ['coq/C09/Spec.v abstract stream; coq/C07 reader model (tied to t
 ASSUMPTIONS = ['call sequences admitted by the writer\'s documented ordering; values within the C parameter types',
                'reader options: claspExt as the writer\'s, cEdge = cHeuristic = false']
 LEVEL_TEXT = ('Coq model of SmodelsOutput composed with the C07 reader model; machine-checked: the writer refuses exactly the documented cases, '
-              'normalised bodies are permutations, and the rules section written by the writer is read back as the normal form (partial round trip); '
+              'normalised bodies are permutations, and the line written for a basic rule is read back as its normal form (partial round trip); '
               'whole programs are covered by differential correspondence and an independent python normaliser.')
-LEVEL_NOTE = 'Round trip proved for the rules section only (c05_roundtrip_partial); symbol table / compute statement / steps by correspondence.'
+LEVEL_NOTE = 'Round trip proved for the line of a basic rule only (c05_roundtrip_partial); other rule kinds, symbol table, compute statement, steps: correspondence + independent normaliser only.'
 TECHNIQUE = 'Coq proof about an executable model + differential correspondence with the implementation'
 DESIGN_REF = 'DESIGN.md section 5, C05'
-READY = False
+READY = True
